@@ -72,6 +72,10 @@ type Case struct {
 	// Shared: equal trailing-slash and resolver options are one and the same fox.Option value wherever they occur - in the
 	// router's option list, the route's and the update's (options are values: applying one leaves it as it was).
 	Shared bool `json:"shared,omitempty"`
+	// Delegate: before they look at anything, the no-route, no-method, options and redirect handlers run another registered
+	// route (one with a resolver of its own) on their context through Route.Handle / Route.HandleMiddleware, as an aliasing
+	// handler would; they are still "other handlers" afterwards and ClientIP still answers with the router-wide resolver
+	Delegate bool `json:"delegate,omitempty"`
 }
 
 // shared option values of the case being checked (nil = build a fresh value every time)
@@ -292,8 +296,20 @@ func checkCase(c *Case, count bool) (err error) {
 	}()
 	var trace []int
 	seen := map[string]string{}
+	delegate := func(ctx fox.Context, kind string) {
+		if !c.Delegate {
+			return
+		}
+		if d := ctx.Fox().Route("GET", "/zz-c19-delegate/{x}"); d != nil {
+			if len(kind)%2 == 0 {
+				d.Handle(ctx)
+			} else {
+				d.HandleMiddleware(ctx)
+			}
+		}
+	}
 	special := func(kind string) fox.HandlerFunc {
-		return func(ctx fox.Context) { seen[kind] = clientIP(ctx); ctx.Writer().WriteHeader(299) }
+		return func(ctx fox.Context) { delegate(ctx, kind); seen[kind] = clientIP(ctx); ctx.Writer().WriteHeader(299) }
 	}
 	sharedOpts = nil
 	if c.Shared {
@@ -303,11 +319,16 @@ func checkCase(c *Case, count bool) (err error) {
 	gopts := toGlobal(c.Global, &trace)
 	gopts = append(gopts, fox.WithNoRouteHandler(special("noroute")), fox.WithNoMethodHandler(special("nomethod")), fox.WithOptionsHandler(special("options")),
 		fox.WithMiddlewareFor(fox.RedirectHandler, func(next fox.HandlerFunc) fox.HandlerFunc {
-			return func(ctx fox.Context) { seen["redirect"] = clientIP(ctx); next(ctx) }
+			return func(ctx fox.Context) { delegate(ctx, "redirect"); seen["redirect"] = clientIP(ctx); next(ctx) }
 		}))
 	f, e := fox.New(gopts...)
 	if e != nil {
 		return fmt.Errorf("case %+v: New rejected valid options: %v", *c, e)
+	}
+	if c.Delegate {
+		if _, e := f.Handle("GET", "/zz-c19-delegate/{x}", func(fox.Context) {}, fox.WithClientIPResolver(res(9)), fox.WithMiddleware(func(next fox.HandlerFunc) fox.HandlerFunc { return next })); e != nil {
+			return fmt.Errorf("case %+v: registering the delegate route: %v", *c, e)
+		}
 	}
 	desc := fmt.Sprintf("global options %v, route options %v, pattern %q: ", c.Global, c.Route, c.Pattern)
 	g := fold(state{}, c.Global, false)
@@ -448,7 +469,7 @@ func genOpts(t *rapid.T, route bool, label string) []Opt {
 
 func TestOptionSequences(t *testing.T) {
 	rapid.Check(t, func(t *rapid.T) {
-		c := &Case{Global: genOpts(t, false, "g"), Route: genOpts(t, true, "r"), Shared: gen.Chance(t, 1, 3, "shared")}
+		c := &Case{Global: genOpts(t, false, "g"), Route: genOpts(t, true, "r"), Shared: gen.Chance(t, 1, 3, "shared"), Delegate: gen.Chance(t, 1, 3, "delegate")}
 		for {
 			c.Pattern = gen.Pattern(t, nil, 2, false)
 			if ref.ValidPattern(c.Pattern, 65535, 65535) && !strings.Contains(c.Pattern, "//") {
